@@ -741,7 +741,7 @@ func tableCheck(ctx *core.Ctx) {
 
 // Run is the C17 check.
 func Run(ctx *core.Ctx) {
-	ctx.Rule = "command table (keys of core/commands.json + undocumented dispatcher names, one valid template per command form and option word) x systematic argument shapes (valid; every single-token deletion, truncation, duplication; extra arguments; per token the hostile values of its kind: wrong types, non-finite and out-of-range numbers, names needing escaping (quotes, backslash, control bytes, invalid UTF-8), broken GeoJSON; RETURN clauses) x 3 dataset states (empty; small mixed incl. ids/fields/strings needing escaping; with hooks and channels) x cells (output mode, transport): resp/resp json/resp resp/telnet json/telnet json/native resp/native json/http-get json/http-post json/websocket. Every cell: state rebuilt if the previous command could have changed it, command sent on a fresh connection, reply parsed by an independent codec. Judged: well-formedness per reply; equality of the result between transports in the same mode; the per-command agreement relation between modes (rel.go). non-trivial = cell with a parsed reply; distinct key = (template, shape, state, mode, transport)"
+	ctx.Rule = "command table (keys of core/commands.json + undocumented dispatcher names, one valid template per command form and option word) x systematic argument shapes (valid; every single-token deletion, truncation, duplication; extra arguments; per token the hostile values of its kind: wrong types, non-finite and out-of-range numbers, names needing escaping (quotes, backslash, control bytes, invalid UTF-8), broken GeoJSON; RETURN clauses) x 3 dataset states (empty; small mixed incl. ids/fields/strings needing escaping; with hooks and channels) x cells (output mode, transport): resp/resp json/resp resp/telnet json/telnet json/native resp/native json/http-get json/http-post json/websocket. Every cell: state rebuilt if the previous command could have changed it, command sent on a fresh connection, reply parsed by an independent codec. One connection-state probe: client names that read as numbers/booleans/null through CLIENT SETNAME / LIST / GETNAME in both modes. Judged: well-formedness per reply; equality of the result between transports in the same mode; the per-command agreement relation between modes (rel.go). non-trivial = cell with a parsed reply; distinct key = (template, shape, state, mode, transport)"
 	ctx.Assumptions = []string{
 		"agreement relation: numbers as float64; strings after mapping invalid UTF-8 bytes to U+FFFD (JSON cannot carry them); RESP error text = JSON err after dropping the 'ERR ' prefix and the Redis spelling of 'invalid number of arguments'; where JSON carries less than RESP (DEL/PDEL/DROP/RENAMENX/SETHOOK counts, FSET change count, PERSIST 0/1) only success is compared; absence: GET/JGET/BOUNDS nil, TYPE none, TTL -2, EXPIRE/PERSIST/JDEL 0, SET nil (NX/XX) <=> JSON ok:false with key/id/path not found or id already exists",
 		"script results follow the Redis conversion on the RESP side (numbers truncated, true=1, false=nil); tables with string keys are not compared",
@@ -861,6 +861,7 @@ func Run(ctx *core.Ctx) {
 		w.stop()
 	}
 	ctx.Count("webhook_deliveries_to_sink", wire.SinkHits.Load())
+	clientNameProbe(ck)
 }
 
 func isGlobalWord(args []string) bool {
